@@ -83,6 +83,18 @@ CHECKS = {
         "note": "decompose routing/flags, Gamma for Theory, tau*/mu correctness not covered.",
         "technique": "contract-based deductive verification (Verus) of mechanically extracted real code",
     },
+    "C09": {
+        "text": "Only the uniqueness-of-formula-names clause is decided by a Verus proof on the real create_unique_formula_names (and add_theory's ordering); the declaration/typing clauses exist only as fmt output and are not covered.",
+        "design_ref": "DESIGN.md §5 C09, §6",
+        "note": "D6 (format! = concatenation; usize Display = decimal numeral) assumed; D14/D15/D16 normalisations; Display for Problem, rename_conflicting_symbols, add_annotated_formulas, decompose_* not verified.",
+        "technique": "contract-based deductive verification (Verus) of mechanically extracted real code",
+    },
+    "C01": {
+        "text": "In progress: fresh-name selection (choose_fresh_variable_names) proved on the real code: the names returned are pairwise distinct, disjoint from the names of the given variables, of the requested number; the search terminates and cannot overflow (pigeonhole argument).",
+        "design_ref": "DESIGN.md §5 C01",
+        "note": "val/tau_b/rule layers not yet under contract.",
+        "technique": "contract-based deductive verification (Verus) of mechanically extracted real code",
+    },
 }
 NOT_APPLICABLE = {
     "C01": "not yet built (planned: Verus unit `tau`)",
